@@ -410,3 +410,74 @@ package netceptor
 //@   site call ParseReceptorNamesFromCert NAME: [C09] requires arg0 == certs[0] && arg1 == expectedHostname
 //@   ensures ACCEPT: [C09] result == nil ==> len(rawCerts) > 0 && lastcall("Verify", 1) == nil
 //@        && (expectedHostnameType == ExpectedHostnameTypeReceptor ==> lastcall("ParseReceptorNamesFromCert", 0) && lastcall("ParseReceptorNamesFromCert", 2) == nil)
+
+// The per-connection client configuration: a private copy of the stored profile with the verifier installed for
+// the expected name; the stored profile itself is never written (frame).
+//@ func (*Netceptor).GetClientTLSConfig
+//@   tags C09
+//@   requires s != nil
+//@   requires forall k string :: (k in s.clientTLSConfigs) ==> s.clientTLSConfigs[k] != nil
+//@   modifies nothing
+//@   site call ReceptorVerifyFunc VERIFIER: [C09] requires arg0 != s.clientTLSConfigs[name] && fresh(arg0) && arg1 == s.clientPinnedFingerprints[name] && arg2 == expectedHostName
+//@        && arg3 == expectedHostNameType && arg4 == VerifyServer && !arg0.InsecureSkipVerify
+//@   ensures COPY: [C09] result.1 == nil && name != "" ==> result.0 != nil && fresh(result.0) && result.0.RootCAs == s.clientTLSConfigs[name].RootCAs
+//@   ensures VERIFIED: [C09] result.1 == nil && name != "" && !s.clientTLSConfigs[name].InsecureSkipVerify ==> result.0.VerifyPeerCertificate == lastcall("ReceptorVerifyFunc", 0)
+//@        && (result.0.InsecureSkipVerify <==> expectedHostNameType == ExpectedHostnameTypeReceptor)
+//@        && (expectedHostNameType == ExpectedHostnameTypeDNS ==> result.0.ServerName == expectedHostName)
+//@   ensures UNKNOWN: [C09] name != "" && (!(name in s.clientTLSConfigs) || !(name in s.clientPinnedFingerprints)) ==> result.1 != nil && result.0 == nil
+
+//@ func (*Netceptor).GetServerTLSConfig
+//@   tags C09
+//@   requires s != nil
+//@   modifies nothing
+//@   ensures COPY: [C09] result.1 == nil && name != "" ==> (name in s.serverTLSConfigs) && (s.serverTLSConfigs[name] != nil ==> fresh(result.0)
+//@        && result.0.ClientCAs == s.serverTLSConfigs[name].ClientCAs && result.0.ClientAuth == s.serverTLSConfigs[name].ClientAuth
+//@        && result.0.VerifyPeerCertificate == s.serverTLSConfigs[name].VerifyPeerCertificate)
+
+//@ func ReceptorVerifyFunc
+//@   modifies nothing
+//@   ensures NONNIL: result != nil
+
+// The per-handshake server configuration of a mutually authenticated stream listener: the name the client
+// certificate must carry is the node the packets claim to come from (the remote address of the connection).
+//@ func (*Netceptor).listen$1
+//@   tags C09
+//@   site call Split ADDR: [C09] requires arg0 == lastcall("String", 0) && arg1 == ":"
+//@   site call ReceptorVerifyFunc PEER: [C09] requires arg2 == lastcall("Split", 0)[0] && arg3 == ExpectedHostnameTypeReceptor && arg4 == VerifyClient && arg0 == tlscfg && len(arg1) == 0
+//@   ensures INSTALLED: [C09] tlscfg != nil ==> result.1 == nil && result.0 != nil && result.0.VerifyPeerCertificate == lastcall("ReceptorVerifyFunc", 0) && result.0.ClientCAs == tlscfg.ClientCAs
+
+// Configuration time: the server profile verifies client certificates whenever client authentication is on, against
+// the configured pins; the local certificate must name the local node unless the check is switched off.
+//@ func checkCertificatesMatchNodeID
+//@   tags C09
+//@   requires n != nil
+//@   modifies nothing
+//@   site call ParseReceptorNamesFromCert LOCALID: [C09] requires arg1 == n.nodeID && arg0 == parsedCert
+//@   atrelease NAMED: [C09] result == nil ==> lastcall("ParseReceptorNamesFromCert", 0) && lastcall("ParseReceptorNamesFromCert", 2) == nil
+
+//@ func (TLSServerConfig).PrepareTLSServerConfig
+//@   tags C09
+//@   requires n != nil
+//@   site call ReceptorVerifyFunc SRV: [C09] requires arg0 == tlscfg && arg1 == pinnedFingerprints && arg4 == VerifyClient && arg2 == ""
+//@   site call checkCertificatesMatchNodeID OWNCERT: [C09] requires arg0 == certBytes && arg1 == n
+//@   ensures CLIENTAUTH: [C09] result.1 == nil ==> result.0 != nil && (cfg.RequireClientCert ==> result.0.ClientAuth == 4)
+//@        && (result.0.ClientAuth != 0 ==> result.0.VerifyPeerCertificate == lastcall("ReceptorVerifyFunc", 0) && result.0.VerifyPeerCertificate != nil)
+//@   ensures OWNNAME: [C09] result.1 == nil && !cfg.SkipReceptorNamesCheck ==> lastcall("checkCertificatesMatchNodeID", 0) == nil
+
+//@ func (TLSClientConfig).PrepareTLSClientConfig
+//@   tags C09
+//@   requires n != nil
+//@   site call checkCertificatesMatchNodeID OWNCERT: [C09] requires arg0 == certBytes && arg1 == n
+//@   ensures PROFILE: [C09] result.2 == nil ==> result.0 != nil && result.0.InsecureSkipVerify == cfg.InsecureSkipVerify && result.1 == lastcall("decodeFingerprints", 0)
+//@        && lastcall("decodeFingerprints", 1) == nil
+//@   ensures OWNNAME: [C09] result.2 == nil && !cfg.SkipReceptorNamesCheck && (cfg.Cert != "" || cfg.Key != "") ==> lastcall("checkCertificatesMatchNodeID", 0) == nil
+
+//@ func baseTLS
+//@   modifies nothing
+//@   ensures BASE: result != nil && fresh(result) && !result.InsecureSkipVerify && result.ClientAuth == 0 && result.VerifyPeerCertificate == nil
+//@        && result.RootCAs == nil && result.ClientCAs == nil
+
+//@ func decodeFingerprints
+//@   modifies nothing
+//@   loop range fingerprints
+//@     invariant FRAME: fresh(fingerprintBytes) && framemem(fingerprintBytes)
